@@ -58,6 +58,10 @@ structure St where
   files : List BName := []
   /-- ghost: (topic, channel) auto-deleted by the ephemeral once-only callback -/
   autoDeleted : List (String × String) := []
+  /-- disk queues present under the data path that no topic/channel owns (left by a restart: a
+  durable channel under an ephemeral topic is not in the metadata); `diskqueue.New` of the same
+  name re-opens them -/
+  orphans : List (BName × List Msg) := []
 deriving Repr, DecidableEq
 
 /-! ### lookups and updates -/
@@ -164,6 +168,15 @@ deriving Repr, DecidableEq
 def newTopic (t : String) (eph : Bool) : Topic := { name := t, eph := eph }
 def newChan (c : String) (eph : Bool) : Chan := { name := c, eph := eph }
 
+def orphanOf (os : List (BName × List Msg)) (b : BName) : List Msg :=
+  match os.find? (fun e => e.1 == b) with
+  | some e => e.2
+  | none => []
+
+/-- a new durable channel opens the disk queue of its name: empty unless an orphan is there -/
+def openChan (os : List (BName × List Msg)) (t c : String) (eph : Bool) : Chan :=
+  if eph then newChan c eph else { name := c, eph := false, queue := orphanOf os (t, some c) }
+
 def removeFiles (fs : List BName) (b : BName) : List BName := fs.filter (fun x => x != b)
 
 /-- `Channel.Empty` -/
@@ -211,7 +224,9 @@ def step (s : St) : Op → St × Ans
     | some T =>
       match T.getChan c with
       | some _ => (s, Ans.ok)
-      | none => (modTopic s t (fun T => T.addChan (newChan c eph)), Ans.ok)
+      | none =>
+        ({ modTopic s t (fun T => T.addChan (openChan s.orphans t c eph)) with
+            orphans := if eph then s.orphans else s.orphans.filter (fun e => e.1 != (t, some c)) }, Ans.ok)
   | .deleteTopic t =>
     match getTopic s t with
     | none => (s, Ans.noTopic)
